@@ -52,8 +52,10 @@ static void xv_phrase_flow (const void *data, size_t n)
 #define XV_DIGEST_STUB(D, CTX_T, N, INIT, UPDATE, FINAL, UPD_LEN_T)                              \
   int xv_##D##_state;            /* 0 RAW, 1 READY */                                            \
   const void *xv_##D##_ctx;                                                                      \
+  struct xv_##D##_blk { unsigned char b[N]; };                                                   \
   unsigned char xv_##D##_last[N];  /* ghost copy of the most recent digest */                    \
   unsigned xv_##D##_finals;                                                                      \
+  const void *xv_##D##_upd_p; size_t xv_##D##_upd_n;   /* ghost: the most recent update */       \
   void INIT (CTX_T *ctx)                                                                         \
   {                                                                                              \
     XV_STUBPRE ("C04", XV_W_OK (ctx, sizeof *ctx), #INIT ": context is writable");               \
@@ -65,6 +67,7 @@ static void xv_phrase_flow (const void *data, size_t n)
                 #UPDATE ": context was initialised and not yet finalised");                      \
     XV_STUBPRE ("C04", n == 0 || XV_R_OK (data, n), #UPDATE ": data has n readable bytes");      \
     xv_phrase_flow (data, n);                                                                    \
+    xv_##D##_upd_p = data; xv_##D##_upd_n = n;                                                   \
   }                                                                                              \
   void FINAL (uint8_t *out, CTX_T *ctx)                                                          \
   {                                                                                              \
@@ -74,7 +77,7 @@ static void xv_phrase_flow (const void *data, size_t n)
     /* loop-free (a loop here would need its own contract inside the callers'                  \
        contracted loops): arbitrary digest value, remembered in the ghost copy */                 \
     XV_HAVOC_SLICE (out, N);                                                                     \
-    memcpy (xv_##D##_last, out, N);                                                              \
+    *(struct xv_##D##_blk *) xv_##D##_last = *(const struct xv_##D##_blk *) out;                 \
     xv_##D##_state = 0; xv_##D##_finals++;                                                       \
   }
 #endif
